@@ -199,8 +199,8 @@ pub fn run(run: &mut Run) {
     run.rule = "samples (n 2..5000 random, plus large n around 100 000; f32/f64; six shapes; conditioning kappa up to the domain limit, a small fraction beyond) x confidence (grid/uniform/log near the ends, three kinds) x six call styles; non-trivial = n >= 2, s > 0, inside the conditioning domain and tolerance < 0.1 % of the half-width; distinct = (type, n, kind, level, data hash)".into();
     crate::meanref::selftest_into(run);
     let (cases, shards, max_n) = match run.tier {
-        crate::engine::Tier::Quick => (40_000u32, 16usize, 2000usize),
-        crate::engine::Tier::Thorough => (600_000, 64, 5000),
+        crate::engine::Tier::Quick => (200_000u32, 32usize, 2000usize),
+        crate::engine::Tier::Thorough => (6_000_000, 256, 5000),
     };
     let seed = run.seed_for("random", 0);
     run.par(shards, |shard, obs| {
